@@ -1,14 +1,18 @@
-(* Syntax/FormatSem.v -- core fragment for property C03 (formatting never changes what a
-   script does): words with quoting, simple commands, ! && || { } ( ) if while/until.
+(* Syntax/FormatSem.v -- fragment for property C03 (formatting never changes what a script
+   does): words with quoting, simple commands with assignments, redirections and
+   here-documents, ! && || { } ( ) if while/until for case, function declarations and calls.
    The tree records what the printer may change (property C01's normal form): source
    line of a statement, its trailing comment, whether it was ended by `;` or a newline,
    the number of escaped newlines (line continuations) before a word, the spelling of a
-   command substitution (backquotes or dollar-paren), and braces around a parameter name.
-   [norm_*] erases exactly those; [sem_*] is an abstract-command semantics (the utilities,
-   the state and the parameter lookup are Section variables).  LINENO is the one
-   position-dependent parameter: it is excluded from the fragment by the exporter (Scope).
-   NO PROOFS in this file.  Own list-like constructors so that the six types form one
-   mutual inductive with a usable mutual induction scheme. *)
+   command substitution (backquotes or dollar-paren), braces around a parameter name,
+   line continuations inside double quotes, and the leading tabs of the lines of a
+   dash here-document (the printer re-indents them).
+   [norm_*] erases exactly those; [sem_*] is an abstract-command semantics (utilities,
+   state, parameter lookup, redirection plumbing, pattern matcher, function table are
+   Section variables).  LINENO is the one position-dependent parameter: it is excluded
+   from the fragment by the exporter (Scope).
+   NO PROOFS in this file.  Own list-like constructors so that the types form one mutual
+   inductive with a usable mutual induction scheme. *)
 From Verif Require Import Base.Str.
 Open Scope N_scope.
 
@@ -21,7 +25,7 @@ with part : Type :=
 | PDbl (d : dq)                           (* double-quoted parts *)
 | PParam (braces : bool) (name : str)     (* $x (false) or ${x} (true) *)
 | PSub (backquote : bool) (body : stmts)  (* `...` (true) or $(...) (false) *)
-with dq : Type :=
+with dq : Type :=                         (* parts of a double-quoted string or of a here-document body *)
 | DNil
 | DLit (s : str) (r : dq)
 | DParam (braces : bool) (name : str) (r : dq)
@@ -29,23 +33,38 @@ with dq : Type :=
 with words : Type :=
 | WsNil
 | WsCons (escnl : N) (w : word) (r : words)   (* escnl: line continuations before the word *)
+with assigns : Type :=
+| ANil
+| ACons (append : bool) (name : str) (value : word) (r : assigns)   (* name=value, name+=value *)
+with redirs : Type :=
+| RNil
+| RFile (op : N) (fd : option str) (target : word) (r : redirs)     (* > >> < <> >& <& >| &> &>> <<< *)
+| RHdoc (dash quoted : bool) (delim : str) (body : dq) (r : redirs) (* << and <<- ; quoted delimiter = no expansion *)
+with citems : Type :=
+| CNil
+| CCons (pats : words) (body : stmts) (r : citems)                   (* pattern|pattern) body ;; *)
 with stmts : Type :=
 | SNil
 | SCons (line : N) (comment : option str) (semi : bool) (s : stmt) (r : stmts)
 with stmt : Type :=
-| Simple (ws : words)
+| Simple (asg : assigns) (ws : words)
+| Redirected (s : stmt) (rs : redirs)
 | Not (s : stmt)
 | AndOr (isand : bool) (a b : stmt)
 | Brace (body : stmts)
 | Subshell (body : stmts)
 | If (c t e : stmts)
-| While (until : bool) (c b : stmts).
+| While (until : bool) (c b : stmts)
+| For (var : str) (items : words) (body : stmts)
+| Case (w : word) (items : citems)
+| FuncDecl (name : str) (body : stmt).
 
 Definition BSL : N := 92.
 Definition DQ : N := 34.
 Definition DOLLAR : N := 36.
 Definition BQ : N := 96.
 Definition NL : N := 10.
+Definition TAB : N := 9.
 
 (* escaped newlines inside double quotes: a backslash-newline pair is a line continuation
    (an escaped backslash does not pair with a following newline) *)
@@ -59,6 +78,27 @@ Fixpoint strip_escnl_dq (s : str) : str :=
         | [] => [b]
         end
       else b :: strip_escnl_dq t
+  end.
+
+(* dash here-documents: the shell removes the leading tabs of every line of the body (and of
+   the line with the delimiter) before anything else; bol = at the beginning of a line *)
+Fixpoint strip_tabs_str (s : str) (bol : bool) : str * bool :=
+  match s with
+  | [] => ([], bol)
+  | c :: t =>
+      if bol && (c =? TAB) then strip_tabs_str t true
+      else let (r, e) := strip_tabs_str t (c =? NL) in (c :: r, e)
+  end.
+Fixpoint strip_tabs_dq (d : dq) (bol : bool) : dq :=
+  match d with
+  | DNil => DNil
+  | DLit s r => let (s', e) := strip_tabs_str s bol in
+                match s' with
+                | [] => strip_tabs_dq r e          (* an empty literal part is no part *)
+                | _ => DLit s' (strip_tabs_dq r e)
+                end
+  | DParam b n r => DParam b n (strip_tabs_dq r false)
+  | DSub bq b r => DSub bq b (strip_tabs_dq r false)
   end.
 
 (* ---- norm: what the printer is allowed to change ---- *)
@@ -85,10 +125,34 @@ with norm_dq (d : dq) : dq :=
   | DParam _ n r => DParam false n (norm_dq r)
   | DSub _ b r => DSub false (norm_stmts b) (norm_dq r)
   end
+with norm_hd (d : dq) : dq :=                       (* here-document body: literals stay as written *)
+  match d with
+  | DNil => DNil
+  | DLit s r => match s with [] => norm_hd r | _ => DLit s (norm_hd r) end
+  | DParam _ n r => DParam false n (norm_hd r)
+  | DSub _ b r => DSub false (norm_stmts b) (norm_hd r)
+  end
 with norm_words (ws : words) : words :=
   match ws with
   | WsNil => WsNil
   | WsCons _ w r => WsCons 0 (norm_word w) (norm_words r)
+  end
+with norm_assigns (a : assigns) : assigns :=
+  match a with
+  | ANil => ANil
+  | ACons ap n v r => ACons ap n (norm_word v) (norm_assigns r)
+  end
+with norm_redirs (rs : redirs) : redirs :=
+  match rs with
+  | RNil => RNil
+  | RFile op fd t r => RFile op fd (norm_word t) (norm_redirs r)
+  | RHdoc dash q delim b r =>
+      RHdoc dash q delim (if dash then strip_tabs_dq (norm_hd b) true else norm_hd b) (norm_redirs r)
+  end
+with norm_citems (c : citems) : citems :=
+  match c with
+  | CNil => CNil
+  | CCons ps b r => CCons (norm_words ps) (norm_stmts b) (norm_citems r)
   end
 with norm_stmts (l : stmts) : stmts :=
   match l with
@@ -97,13 +161,17 @@ with norm_stmts (l : stmts) : stmts :=
   end
 with norm_stmt (s : stmt) : stmt :=
   match s with
-  | Simple ws => Simple (norm_words ws)
+  | Simple a ws => Simple (norm_assigns a) (norm_words ws)
+  | Redirected s' rs => Redirected (norm_stmt s') (norm_redirs rs)
   | Not s' => Not (norm_stmt s')
   | AndOr o a b => AndOr o (norm_stmt a) (norm_stmt b)
   | Brace b => Brace (norm_stmts b)
   | Subshell b => Subshell (norm_stmts b)
   | If c t e => If (norm_stmts c) (norm_stmts t) (norm_stmts e)
   | While u c b => While u (norm_stmts c) (norm_stmts b)
+  | For v items b => For v (norm_words items) (norm_stmts b)
+  | Case w items => Case (norm_word w) (norm_citems items)
+  | FuncDecl n b => FuncDecl n (norm_stmt b)
   end.
 
 (* ---- semantics ---- *)
@@ -137,6 +205,22 @@ Fixpoint unquote_dq (s : str) : str :=
       else b :: unquote_dq t
   end.
 
+(* here-document with an unquoted delimiter: as double quotes, but a double quote is not special *)
+Fixpoint unquote_hd (s : str) : str :=
+  match s with
+  | [] => []
+  | b :: t =>
+      if b =? BSL then
+        match t with
+        | c :: t' =>
+            if c =? NL then unquote_hd t'
+            else if (c =? BSL) || (c =? DOLLAR) || (c =? BQ) then c :: unquote_hd t'
+            else b :: unquote_hd t
+        | [] => [b]
+        end
+      else b :: unquote_hd t
+  end.
+
 (* strip trailing newlines of a command substitution's output *)
 Fixpoint strip_nl_rev (r : str) : str :=
   match r with
@@ -151,11 +235,25 @@ Inductive outcome (S : Type) : Type :=
 Arguments Done {S} s out status.
 Arguments OutOfFuel {S}.
 
+Definition HDOC_OP : N := 1000.
+
 Section Sem.
   Variable State : Type.
-  Variable lookup : State -> str -> str.                       (* parameter value *)
-  Variable run : list str -> State -> State * str * Z.           (* a simple command: argv *)
+  Variable lookup : State -> str -> str.                          (* parameter value *)
+  (* a simple command: evaluated assignments (append, name, value) and argv (may be empty) *)
+  Variable run : list (bool * str * str) -> list str -> State -> State * str * Z.
   Variable set_status : State -> Z -> State.
+  (* redirections of one statement, evaluated: (operator, descriptor, target or here-document text) *)
+  Variable redir_open : list (N * option str * str) -> State -> State.
+  Variable redir_close : State -> State -> str -> State * str.  (* state before, state after, output *)
+  Variable set_var : State -> str -> str -> State.                (* the for loop variable *)
+  Variable pmatch : str -> str -> bool.                           (* case pattern against a string *)
+  Variable def_func : State -> str -> stmt -> State.
+  Variable func_body : State -> str -> option stmt.
+  Variable enter_func : list (bool * str * str) -> list str -> State -> State.
+  Variable leave_func : State -> State -> State.
+  (* how the body of a called function is executed (the top level ties this knot on fuel) *)
+  Variable call : stmt -> State -> outcome State.
 
   (* while loop: at most [n] iterations *)
   Fixpoint loop (n : nat) (until : bool) (cond body : State -> outcome State) (s : State) (acc : str) (last : Z)
@@ -172,6 +270,17 @@ Section Sem.
               | Done s2 o2 z2 => loop n' until cond body (set_status s2 z2) (acc ++ o1 ++ o2) z2
               end
             else Done s1 (acc ++ o1) last
+        end
+    end.
+
+  Fixpoint for_loop (var : str) (vals : list str) (body : State -> outcome State) (s : State) (acc : str) (last : Z)
+    : outcome State :=
+    match vals with
+    | [] => Done s acc last
+    | v :: rest =>
+        match body (set_var s var v) with
+        | OutOfFuel => OutOfFuel
+        | Done s2 o2 z2 => for_loop var rest body (set_status s2 z2) (acc ++ o2) z2
         end
     end.
 
@@ -213,6 +322,28 @@ Section Sem.
         | OutOfFuel => None
         end
     end
+  (* here-document body; dash = the leading tabs of every line are removed first (bol = at the
+     beginning of a line); quoted delimiter = the text is taken as it is *)
+  with sem_hd (fuel : nat) (quoted dash bol : bool) (d : dq) (s : State) : option (str * State) :=
+    match d with
+    | DNil => Some ([], s)
+    | DLit t r =>
+        let (t', e) := if dash then strip_tabs_str t bol else (t, false) in
+        match sem_hd fuel quoted dash e r s with
+        | Some (b, s2) => Some ((if quoted then t' else unquote_hd t') ++ b, s2)
+        | None => None end
+    | DParam _ n r =>
+        match sem_hd fuel quoted dash false r s with Some (b, s2) => Some (lookup s n ++ b, s2) | None => None end
+    | DSub _ b r =>
+        match sem_stmts fuel b s with
+        | Done _ o z =>
+            match sem_hd fuel quoted dash false r (set_status s z) with
+            | Some (b', s2) => Some (strip_trailing_nl o ++ b', s2)
+            | None => None
+            end
+        | OutOfFuel => None
+        end
+    end
   with sem_words (fuel : nat) (ws : words) (s : State) : option (list str * State) :=
     match ws with
     | WsNil => Some ([], s)
@@ -220,6 +351,40 @@ Section Sem.
         match sem_word fuel w s with
         | Some (a, s1) => match sem_words fuel r s1 with Some (l, s2) => Some (a :: l, s2) | None => None end
         | None => None
+        end
+    end
+  with sem_assigns (fuel : nat) (a : assigns) (s : State) : option (list (bool * str * str) * State) :=
+    match a with
+    | ANil => Some ([], s)
+    | ACons ap n v r =>
+        match sem_word fuel v s with
+        | Some (x, s1) => match sem_assigns fuel r s1 with Some (l, s2) => Some ((ap, n, x) :: l, s2) | None => None end
+        | None => None
+        end
+    end
+  with sem_redirs (fuel : nat) (rs : redirs) (s : State) : option (list (N * option str * str) * State) :=
+    match rs with
+    | RNil => Some ([], s)
+    | RFile op fd t r =>
+        match sem_word fuel t s with
+        | Some (x, s1) => match sem_redirs fuel r s1 with Some (l, s2) => Some ((op, fd, x) :: l, s2) | None => None end
+        | None => None
+        end
+    | RHdoc dash q _ b r =>
+        match sem_hd fuel q dash true b s with
+        | Some (x, s1) => match sem_redirs fuel r s1 with Some (l, s2) => Some ((HDOC_OP, None, x) :: l, s2) | None => None end
+        | None => None
+        end
+    end
+  with sem_citems (fuel : nat) (c : citems) (v : str) (s : State) : outcome State :=
+    match c with
+    | CNil => Done s [] 0%Z
+    | CCons ps b r =>
+        match sem_words fuel ps s with
+        | None => OutOfFuel
+        | Some (pl, s1) =>
+            if existsb (fun p => pmatch p v) pl then sem_stmts fuel b s1
+            else sem_citems fuel r v s1
         end
     end
   with sem_stmts (fuel : nat) (l : stmts) (s : State) : outcome State :=
@@ -240,10 +405,31 @@ Section Sem.
     end
   with sem_stmt (fuel : nat) (st : stmt) (s : State) : outcome State :=
     match st with
-    | Simple ws =>
-        match sem_words fuel ws s with
-        | Some (argv, s1) => let '(s2, o, z) := run argv s1 in Done s2 o z
+    | Simple asg ws =>
+        match sem_assigns fuel asg s with
         | None => OutOfFuel
+        | Some (al, s0) =>
+            match sem_words fuel ws s0 with
+            | None => OutOfFuel
+            | Some (argv, s1) =>
+                match match argv with name :: _ => func_body s1 name | [] => None end with
+                | Some body =>
+                    match call body (enter_func al argv s1) with
+                    | Done s2 o z => Done (leave_func s1 s2) o z
+                    | OutOfFuel => OutOfFuel
+                    end
+                | None => let '(s2, o, z) := run al argv s1 in Done s2 o z
+                end
+            end
+        end
+    | Redirected st' rs =>
+        match sem_redirs fuel rs s with
+        | None => OutOfFuel
+        | Some (rl, s0) =>
+            match sem_stmt fuel st' (redir_open rl s0) with
+            | Done s1 o z => let (s2, o') := redir_close s0 s1 o in Done s2 o' z
+            | OutOfFuel => OutOfFuel
+            end
         end
     | Not st' =>
         match sem_stmt fuel st' s with
@@ -279,5 +465,45 @@ Section Sem.
         end
     | While u c b =>
         loop fuel u (sem_stmts fuel c) (sem_stmts fuel b) s [] 0%Z
+    | For v items b =>
+        match sem_words fuel items s with
+        | None => OutOfFuel
+        | Some (vals, s1) => for_loop v vals (sem_stmts fuel b) s1 [] 0%Z
+        end
+    | Case w items =>
+        match sem_word fuel w s with
+        | None => OutOfFuel
+        | Some (v, s1) => sem_citems fuel items v s1
+        end
+    | FuncDecl n b =>
+        (* the function table holds normal forms: what a declaration stores does not depend on layout *)
+        Done (def_func s n (norm_stmt b)) [] 0%Z
     end.
 End Sem.
+
+(* top level: a function call runs the stored body with one unit of fuel less *)
+Section Top.
+  Variable State : Type.
+  Variable lookup : State -> str -> str.
+  Variable run : list (bool * str * str) -> list str -> State -> State * str * Z.
+  Variable set_status : State -> Z -> State.
+  Variable redir_open : list (N * option str * str) -> State -> State.
+  Variable redir_close : State -> State -> str -> State * str.
+  Variable set_var : State -> str -> str -> State.
+  Variable pmatch : str -> str -> bool.
+  Variable def_func : State -> str -> stmt -> State.
+  Variable func_body : State -> str -> option stmt.
+  Variable enter_func : list (bool * str * str) -> list str -> State -> State.
+  Variable leave_func : State -> State -> State.
+
+  Fixpoint call_fuel (fuel : nat) (b : stmt) (s : State) : outcome State :=
+    match fuel with
+    | O => OutOfFuel
+    | S f => sem_stmt State lookup run set_status redir_open redir_close set_var pmatch def_func func_body
+               enter_func leave_func (call_fuel f) f b s
+    end.
+
+  Definition sem_top (fuel : nat) (l : stmts) (s : State) : outcome State :=
+    sem_stmts State lookup run set_status redir_open redir_close set_var pmatch def_func func_body
+      enter_func leave_func (call_fuel fuel) fuel l s.
+End Top.
